@@ -406,15 +406,9 @@ func (k Keeper) UpdateLockedBorrows(ctx sdk.Context, borrow lendtypes.BorrowAsse
 		// collateral that came from credited rewards is not part of the principal
 		lendPos.AmountIn.Amount = sdk.ZeroInt()
 	}
-	if !lendPos.AmountIn.Amount.GT(sdk.ZeroInt()) && !lendPos.AvailableToBorrow.GT(sdk.ZeroInt()) {
-		// delete lend position (only once nothing is left in it: what is still available to borrow, e.g. credited
-		// rewards, belongs to the lender and is counted in the pool's total lent)
-		k.lend.DeleteLendForAddressByAsset(ctx, lendPos.Owner, lendPos.ID)
-		k.lend.DeleteIDFromAssetStatsMapping(ctx, lendPos.PoolID, lendPos.AssetID, borrow.LendingID, true)
-		k.lend.DeleteLend(ctx, lendPos.ID)
-	} else {
-		k.lend.SetLend(ctx, lendPos)
-	}
+	// the lend position stays, even when nothing is left in it, until the auction of the seized borrow has closed:
+	// the close reads it to send a bridged amount back to its pool (MsgCloseDutchAuctionForBorrow removes it then)
+	k.lend.SetLend(ctx, lendPos)
 
 	return nil
 }
@@ -754,7 +748,7 @@ func (k Keeper) MsgCloseDutchAuctionForBorrow(ctx sdk.Context, liquidationData t
 	assetOutStats, _ := k.lend.GetAssetRatesParams(ctx, pair.AssetOut)
 	assetInStats, _ := k.lend.GetAssetRatesParams(ctx, pair.AssetIn)
 	cAsset, _ := k.asset.GetAsset(ctx, assetOutStats.CAssetID)
-	lend, _ := k.lend.GetLend(ctx, borrowPos.LendingID)
+	lend, lendFound := k.lend.GetLend(ctx, borrowPos.LendingID)
 
 	// sending tokens debt tokens to the pool
 	err := k.bank.SendCoinsFromModuleToModule(ctx, auctionsV2types.ModuleName, pool.ModuleName, sdk.NewCoins(amountToPool))
@@ -830,5 +824,14 @@ func (k Keeper) MsgCloseDutchAuctionForBorrow(ctx sdk.Context, liquidationData t
 	k.lend.DeleteBorrowIDFromUserMapping(ctx, liquidationData.Owner, borrowPos.LendingID, liquidationData.OriginalVaultId)
 	k.lend.DeleteBorrow(ctx, liquidationData.OriginalVaultId)
 	k.lend.DeleteBorrowInterestTracker(ctx, liquidationData.OriginalVaultId)
+	// delete the lend position once nothing is left in it (what is still available to borrow, e.g. credited rewards,
+	// belongs to the lender and is counted in the pool's total lent) and no other borrow refers to it
+	if lendFound && !lend.AmountIn.Amount.GT(sdk.ZeroInt()) && !lend.AvailableToBorrow.GT(sdk.ZeroInt()) {
+		if mapping, _ := k.lend.GetUserLendBorrowMapping(ctx, lend.Owner, lend.ID); len(mapping.BorrowId) == 0 {
+			k.lend.DeleteLendForAddressByAsset(ctx, lend.Owner, lend.ID)
+			k.lend.DeleteIDFromAssetStatsMapping(ctx, lend.PoolID, lend.AssetID, lend.ID, true)
+			k.lend.DeleteLend(ctx, lend.ID)
+		}
+	}
 	return nil
 }
